@@ -49,7 +49,7 @@ def run(ctx):
         "coverage theorem changed_covers is OPEN (needs MatchSound); coverage is decided per case by the judge",
     ]
     ctx.regen()
-    ctx.prove(["TsVerif.C04.Props"], "TsVerif/C04/Audit.lean")
+    ctx.prove(["TsVerif.C04.Props", "TsVerif.C04.Round11"], "TsVerif/C04/Audit.lean")
     driver = ctx.build_driver("tsv-c04")
     explorer = ctx.cargo_bin("c04")
     cunit = build_cunit(ctx)
